@@ -135,23 +135,29 @@ label of the LTS; it must be enabled — possibly after labels that have no yiel
 the terminal's reply, the application receiving) — and lead to the program counter the yield point
 stands for. -/
 
-def hiddenLabels (s : SSys) : List SLabel :=
-  [.parser, .termReply] ++ (if s.consumer then [.consume] else [])
+/-- `obs`: the trace carries the parser's own yield points for the tail of `run` (`P:parser.tail`,
+`P:parser.eof`, `P:parser.closed`: C08's `verifSched` points 20 / 25 / 29, round 4) — those three steps of
+the parser are then labels of the replay and no longer hidden. -/
+def parserInTail (s : SSys) : Bool :=
+  s.ppc == .emitEOF || s.ppc == .signalClosed || (s.ppc == .top && s.closeSig > 0)
+
+def hiddenLabels (obs : Bool) (s : SSys) : List SLabel :=
+  (if obs && parserInTail s then [] else [.parser]) ++ [.termReply] ++ (if s.consumer then [.consume] else [])
 
 /-- take `l`, if necessary after hidden labels -/
-def stepWeak : Nat → SSys → SLabel → Option SSys
+def stepWeak (obs : Bool) : Nat → SSys → SLabel → Option SSys
   | 0, s, l => snext s l
   | fuel + 1, s, l =>
     match snext s l with
     | some s' => some s'
-    | none => match firstEnabled s (hiddenLabels s) with
-      | some s1 => stepWeak fuel s1 l
+    | none => match firstEnabled s (hiddenLabels obs s) with
+      | some s1 => stepWeak obs fuel s1 l
       | none => none
 
-def runHidden : Nat → SSys → SSys
+def runHidden (obs : Bool) : Nat → SSys → SSys
   | 0, s => s
-  | fuel + 1, s => match firstEnabled s (hiddenLabels s) with
-    | some s' => runHidden fuel s'
+  | fuel + 1, s => match firstEnabled s (hiddenLabels obs s) with
+    | some s' => runHidden obs fuel s'
     | none => s
 
 structure Replay where
@@ -181,46 +187,63 @@ def fuelW : Nat := 80
 
 /-- step caller `j` until it is at `target`; a yield point may stand for more than one step (the
 guard of `Suspend` has no point of its own) -/
-def stepUntil (target : CPc) (j : Nat) : Nat → SSys → Except String SSys
+def stepUntil (obs : Bool) (target : CPc) (j : Nat) : Nat → SSys → Except String SSys
   | 0, _ => .error "does not reach the program counter of the yield point"
   | n + 1, s =>
-    match stepWeak fuelW s (.caller j) with
+    match stepWeak obs fuelW s (.caller j) with
     | none => .error "blocked in the model"
     | some s' =>
       let got : Option CPc := s'.callers[j]?.map (·.pc)
       if got == some target then .ok s'
       else if got == some .returned || got == none then .error s!"the model is at {(got.map pcName).getD "?"}"
-      else stepUntil target j n s'
+      else stepUntil obs target j n s'
 
-def replayItem (r : Replay) (item : String) : Except String Replay :=
+/-- One of the parser's observed steps: take `.parser` steps (the reader may first need the terminal's
+reply) until the parser is at `target`; the steps before the tail stay hidden, the tail is exact. -/
+def parserTo (target : PPc) : Nat → SSys → Except String SSys
+  | 0, _ => .error "the model's parser does not get there"
+  | n + 1, s =>
+    if s.ppc == target then .ok s
+    else if s.ppc == .done then .error "the model's parser is already done"
+    else match snext s .parser with
+      | some s' => if s'.ppc == target then .ok s' else
+          (if parserInTail s then .error "the model's parser is past that point" else parserTo target n s')
+      | none => match snext s .termReply with
+        | some s' => parserTo target n s'
+        | none => .error "the model's parser is blocked"
+
+def replayItem (obs : Bool) (r : Replay) (item : String) : Except String Replay :=
   match item.splitOn ":" with
+  | ["P", "parser.tail"] => (match parserTo .emitEOF fuelW r.s with | .ok s' => .ok { r with s := s' } | .error e => .error s!"parser.tail: {e}")
+  | ["P", "parser.eof"] => (match parserTo .signalClosed fuelW r.s with | .ok s' => .ok { r with s := s' } | .error e => .error s!"parser.eof: {e}")
+  | ["P", "parser.closed"] => (match parserTo .done fuelW r.s with | .ok s' => .ok { r with s := s' } | .error e => .error s!"parser.closed: {e}")
   | ["E", "input"] => match snext r.s (.termInput (some 1)) with
     | some s' => .ok { r with s := s' }
     | none => .error "input"
   | ["E", "signal"] => match snext r.s .signal with
     | some s' => .ok { r with s := s' }
     | none => .error "a second signal while one is pending"
-  | ["E", "settle"] => .ok { r with s := runHidden 400 r.s }
-  | ["I", "input.seq"] => match stepWeak fuelW r.s (.input .recv) with
+  | ["E", "settle"] => .ok { r with s := runHidden obs 400 r.s }
+  | ["I", "input.seq"] => match stepWeak obs fuelW r.s (.input .recv) with
     | some s' => (match s'.ipc with | .posting _ => .ok { r with s := s' } | _ => .error "input.seq: the model's input goroutine received EOF or found the channel closed")
     | none => .error "input.seq: no sequence can be in the channel"
   | ["I", "input.eof"] =>
     -- EOF itself must be what the goroutine receives: make the parser deliver it first
-    let s1 := if r.s.seqs.isEmpty then runHidden fuelW r.s else r.s
+    let s1 := if r.s.seqs.isEmpty then runHidden obs fuelW r.s else r.s
     (match s1.ipc, s1.seqs with
      | .select, .eof :: _ => (match snext s1 (.input .recv) with
         | some s' => .ok { r with s := s' }
         | none => .error "input.eof")
      | _, _ => .error "input.eof: EOF is not at the head of the channel")
   | ["I", "input.closed"] =>
-    let s1 := if r.s.seqs.isEmpty && !r.s.seqsClosed then runHidden fuelW r.s else r.s
+    let s1 := if r.s.seqs.isEmpty && !r.s.seqsClosed then runHidden obs fuelW r.s else r.s
     (match s1.ipc, s1.seqs, s1.seqsClosed with
      | .select, [], true => (match snext s1 (.input .recv) with
         | some s' => .ok { r with s := s' }
         | none => .error "input.closed")
      | _, _, _ => .error "input.closed: the channel is not empty and closed in the model")
   | ["I", "postb.sent"] => match r.s.ipc with
-    | .posting (_ + 1) => (match stepWeak fuelW r.s (.input .step) with
+    | .posting (_ + 1) => (match stepWeak obs fuelW r.s (.input .step) with
       | some s' => .ok { r with s := s' }
       | none => .error "postb.sent: the queue is full and nobody receives")
     | _ => .error "postb.sent: the model's input goroutine has no post to do"
@@ -236,7 +259,7 @@ def replayItem (r : Replay) (item : String) : Except String Replay :=
     | _ => .error "input.handled: the model's input goroutine still has posts to do"
   | [role, "close.enter"] =>
     if role == "I" then
-      match stepWeak fuelW r.s (.input .kill) with
+      match stepWeak obs fuelW r.s (.input .kill) with
       | some s' => .ok { s := s', roles := (role, r.s.callers.length) :: r.roles }
       | none => .error "close.enter on the input goroutine: its select cannot take the signal arm"
     else match snext r.s .callClose with
@@ -249,10 +272,10 @@ def replayItem (r : Replay) (item : String) : Except String Replay :=
        -- the caller is inside WaitClose (steps without a yield point of their own first)
        let s1 : Except String SSys := match r.s.callers[j]?.map (·.pc) with
          | some CPc.waitClosed => .ok r.s
-         | _ => stepUntil .waitClosed j 3 r.s
+         | _ => stepUntil obs .waitClosed j 3 r.s
        match s1 with
        | .error e => .error s!"{item}: {e}"
-       | .ok s1 => match stepWeak fuelW s1 (.drain j) with
+       | .ok s1 => match stepWeak obs fuelW s1 (.drain j) with
          | some s' => .ok { r with s := s' }
          | none => .error "parser.drained: nothing can be in the channel")
   | [role, point] =>
@@ -265,7 +288,7 @@ def replayItem (r : Replay) (item : String) : Except String Replay :=
       | some j =>
         if !r.s.consumer && point == "post.sent" && !(r.s.queueLen < r.s.qcap) then .error "post.sent with a full queue"
         else if !r.s.consumer && point == "post.dropped" && r.s.queueLen < r.s.qcap then .error "post.dropped although the queue has room"
-        else match stepUntil expect j 3 r.s with
+        else match stepUntil obs expect j 3 r.s with
           | .ok s' => .ok { r with s := s' }
           | .error e => .error s!"{item}: {e}"
   | _ => .error s!"malformed trace item {item}"
@@ -279,35 +302,48 @@ approximate across goroutines (seen under load: a `parser.drained` recorded afte
 that the drained EOF made possible; `input.eof` recorded before the `suspend.da1` whose reply woke the
 reader): the trace is accepted if some interleaving that respects every goroutine's own order is a
 run of the LTS. -/
-def pickNext (r : Replay) : Nat → List String → List String → Except String (Replay × List String)
+def pickNext (obs : Bool) (r : Replay) : Nat → List String → List String → Except String (Replay × List String)
   | _, _, [] => .error "empty"
   | 0, _, x :: _ => .error s!"no interleaving replays near {x}"
   | w + 1, skipped, x :: rest =>
-    if skipped.any (fun y => roleOf y == roleOf x) then pickNext r w (skipped ++ [x]) rest
-    else match replayItem r x with
+    if skipped.any (fun y => roleOf y == roleOf x) then pickNext obs r w (skipped ++ [x]) rest
+    else match replayItem obs r x with
       | .ok r' => .ok (r', skipped ++ rest)
       | .error e =>
-        match pickNext r w (skipped ++ [x]) rest with
+        match pickNext obs r w (skipped ++ [x]) rest with
         | .ok res => .ok res
         | .error _ => .error e
 
 /-- Replay with one of two strategies for the labels that have no yield point (parser steps, the
 terminal's reply, the application's receives): `eager = false` takes them only when the next item
 needs them, `eager = true` lets them run as far as they can after every item. -/
-def replayTraceWith (eager : Bool) : Nat → Replay → List String → Except String Replay
+def replayTraceWith (obs eager : Bool) : Nat → Replay → List String → Except String Replay
   | _, r, [] => .ok r
   | 0, _, _ => .error "trace too long"
-  | n + 1, r, items => match pickNext r 6 [] items with
-    | .ok (r', rest) => replayTraceWith eager n (if eager then { r' with s := runHidden fuelW r'.s } else r') rest
+  | n + 1, r, items => match pickNext obs r 6 [] items with
+    | .ok (r', rest) => replayTraceWith obs eager n (if eager then { r' with s := runHidden obs fuelW r'.s } else r') rest
     | .error e => .error e
 
 /-- The trace is accepted if one of the two strategies replays it (weak trace inclusion, searched
 over two schedules of the hidden labels). -/
-def replayTrace (r : Replay) (items : List String) : Except String Replay :=
-  match replayTraceWith false (items.length + 1) r items with
+def replayTraceObs (obs : Bool) (r : Replay) (items : List String) : Except String Replay :=
+  match replayTraceWith obs false (items.length + 1) r items with
   | .ok r' => .ok r'
-  | .error e => match replayTraceWith true (items.length + 1) r items with
+  | .error e => match replayTraceWith obs true (items.length + 1) r items with
     | .ok r' => .ok r'
     | .error e2 => .error (e ++ " / eager: " ++ e2)
+
+def isParserItem (x : String) : Bool := roleOf x == "P"
+
+/-- With the parser's own yield points in the trace (round 4) the tail of `run` is replayed label by
+label.  These points are recorded by another goroutine than the ones they are ordered against, so a trace
+that does not replay with them (cross-goroutine order flipped beyond the window) is replayed once more
+without them — the parser's steps hidden, as before round 4; it is rejected only if that fails too. -/
+def replayTrace (r : Replay) (items : List String) : Except String Replay :=
+  if items.any isParserItem then
+    match replayTraceObs true r items with
+    | .ok r' => .ok r'
+    | .error _ => replayTraceObs false r (items.filter (fun x => !isParserItem x))
+  else replayTraceObs false r items
 
 end VaxisModel.Model.Conc
